@@ -117,9 +117,15 @@ CHECKS = {
     note='Trusted: z3, the SX instrumentation (validated by running the repository suite on the instrumented package), ref/vlq_ref.py as the reading of the Source Map V3 spec. Outside the bound: larger magnitudes, longer lists/strings.',
     technique='symbolic execution of the real Python code with z3 bit-vectors (path-wise, bounded), differential against a spec codec run on the same symbolic data',
     engine='SX'),
+ 'C15': dict(
+    level=('other', 'Frame condition decided by symbolic execution: the real Lexer wrapper (token, _token, _get_update_token, _set_tokens, auto_semi, get_lexer_token, _update_newline_idx, hidden-token bookkeeping) runs under SX on a raw-token source of <= 3/4 items whose kinds are symbolic (z3 finite domain), comment capture off and on, and every real p_* action runs on symbolic positions for every child-shape combination; after every token step and at the end of every path a structural snapshot of all module- and class-level state of calmjs.parse.* and ply.* (about 1300 entries: data by value, functions with defaults/closures/attributes, table modules) must equal the snapshot taken before. '
+                    'A parse that writes to nothing which outlives it cannot be observed by a later or a concurrent parse, so the frame condition covers histories of any length and all thread schedules without enumerating either. '
+                    'Replay legs: the same snapshots around and inside (at every token) real parse() calls on table-derived accepted and rejected programs; every ordered pair of 56 (text, flag) items parsed in one process against fresh interpreters; a sampled thread leg (8 threads, 1 microsecond switch interval). A shared-state write is reported as a violation only with an observable consequence (a history or thread difference replayed in a fresh interpreter), otherwise as inconclusive.', 'DESIGN.md C15'),
+    note='Trusted: ply LRParser/Lexer keep their working state per object (read off yacc.py/lex.py, not executed symbolically); CPython re objects are stateless between matches; seven ply backward-compatibility globals (lex.lexer/token/input, yacc.parse, yacc._errok/_token/_restart) are rebound by ply on every construction / error hook and never read (static scan of calmjs.parse each run). Outside: writes made and undone between two token steps; thread schedules themselves (sampled only: the thread half rests on the frame condition); state inside C extension code.',
+    technique='symbolic execution (z3) of the real lexer wrapper on symbolic token kinds and of every parser action on symbolic positions, asserting on every path a frame condition (snapshot equality of all process-shared state); history pairs and sampled thread runs as replay',
+    engine='SX+GX'),
 }
 NOT_APPLICABLE = {
- 'C15': 'thread schedules of CPython byte-code and histories of whole-pipeline parse() calls offer a solver no symbolic variable: the state that could leak is inside ply LRParser/Lexer objects and the C regex cache behind parse()\'s per-call construction; nothing installed models Python threads symbolically (see DESIGN.md C15)',
 }
 PENDING = 'check not built yet in this round - not claimed until its solver-based check exists (see DESIGN.md for the planned encoding)'
 
